@@ -114,10 +114,15 @@ std::string symbolize_fn(uintptr_t pc) {
   static std::map<uintptr_t, std::string> cache;
   auto it = cache.find(pc);
   if (it != cache.end()) return it->second;
-  char buf[1024];
-  buf[0] = 0;
-  __sanitizer_symbolize_pc(reinterpret_cast<void*>(pc), "%f", buf, sizeof buf);
+  char buf[4096];
+  memset(buf, 0, sizeof buf);
+  __sanitizer_symbolize_pc(reinterpret_cast<void*>(pc), "%f", buf, sizeof buf - 2);
+  // Inlined frames come back as consecutive NUL-terminated strings, innermost first: prefer the
+  // innermost frame that belongs to cctz (so that UB inside an inlined std:: helper is attributed to its caller).
   std::string s = buf;
+  for (const char* p = buf; *p; p += strlen(p) + 1) {
+    if (strstr(p, "cctz::") == p || strstr(p, " cctz::") || strncmp(p, "cctz::", 6) == 0) { s = p; break; }
+  }
   for (size_t q; (q = s.find("(anonymous namespace)::")) != std::string::npos;) s.erase(q, 23);
   // Strip the argument list so that the class string is stable.
   size_t par = s.find('(');
